@@ -405,6 +405,7 @@ int hwloc_bitmap_sscanf(struct hwloc_bitmap_s *set, const char * __hwloc_restric
     return -1;
 
   set->infinite = 0; /* will be updated later */
+  memset(set->ulongs, 0, ulongcount * sizeof(unsigned long)); /* substrings after a trailing comma are empty */
 
 #if HWLOC_BITS_PER_LONG != HWLOC_BITMAP_SUBSTRING_SIZE
   if (infinite && (count % HWLOC_BITMAP_STRING_PER_LONG) != 0) {
@@ -437,6 +438,10 @@ int hwloc_bitmap_sscanf(struct hwloc_bitmap_s *set, const char * __hwloc_restric
     }
     current = (const char*) next+1;
   }
+
+  if (accum && count > 0)
+    /* the string ended after a comma: store what was accumulated for the current ulong */
+    set->ulongs[(count-1) / HWLOC_BITMAP_STRING_PER_LONG] |= accum;
 
   set->infinite = infinite; /* set at the end, to avoid spurious realloc with filled new ulongs */
 
